@@ -50,6 +50,23 @@ def pick_size(rng, level, cap=None):
     return rng.choice(xs) + rng.choice([0, 0, 1, 2])
 
 
+# ---------------------------------------------------------------------------------- memory layout
+
+def fortran(t):
+    """the same 2-D tensor in column-major layout (strides (1, rows)) - what torch.from_numpy(df[cols].to_numpy())
+    and .t() hand to the library; reshape(-1) of such a tensor is a COPY, so code that writes through a flattened
+    'view' silently loses the write"""
+    if getattr(t, 'dim', None) is None or t.dim() != 2 or t.size(0) < 2 or t.size(1) < 2:
+        return t
+    return t.t().contiguous().t()
+
+
+def wants_fortran(obj, one_in=5):
+    """deterministic (replayable) choice derived from the case content: about one object in `one_in`"""
+    h = hashlib.sha1(json.dumps(obj, sort_keys=True, default=str).encode()).hexdigest()
+    return int(h[:8], 16) % one_in == 0
+
+
 # ---------------------------------------------------------------------------------- fingerprints
 
 class _Strip(ast.NodeTransformer):
